@@ -608,7 +608,10 @@ class Ctx:
 
     def refute(self, summary, case):
         if len(self.viol) < 4:
-            self.viol.append({"summary": summary, "case": case})
+            v = {"summary": summary, "case": case}
+            if "only" in case:
+                v["replay_spec"] = dict(self.spec, only=case["only"])
+            self.viol.append(v)
 
 
 def write_file(ctx, obj, arch, etype, case, origin):
